@@ -152,7 +152,15 @@ func (c tsClient) do(ctx context.Context, url string, req *pkcs9.Request, imprin
 		return nil, fmt.Errorf("%s: HTTP %s\n%s", url, resp.Status, body)
 	}
 	if req.Legacy {
-		return pkcs9.ParseLegacyResponse(body)
+		token, err := pkcs9.ParseLegacyResponse(body)
+		if err != nil {
+			return nil, err
+		}
+		// check the reply here, like ParseResponse does for RFC 3161, so that a bad one moves on to the next server
+		if _, err := pkcs9.VerifyMicrosoftToken(token, imprint); err != nil {
+			return nil, fmt.Errorf("pkcs9: token sanity check failed: %w", err)
+		}
+		return token, nil
 	}
 	return msg.ParseResponse(body)
 }
